@@ -18,7 +18,7 @@ RULE = (
     "(all promotions and all non-promotions), enum symbol added/removed/reordered with/without enum default, fixed size "
     "changed, named type renamed with/without alias, definition moved between inline and by-reference positions, wrap in / "
     "unwrap from a union, union branches reordered/added/removed; plus R equal to W as a distinct object. Data D_1(W). Both "
-    "schemaless_reader(fo, W, R) and reader(fo, reader_schema=R). Oracle (three-valued, on the decoded writer value with "
+    "schemaless_reader(fo, W, R) and reader(fo, reader_schema=R), each with raw and with pre-parsed schemas. Oracle (three-valued, on the decoded writer value with "
     "the written branch indices): VALUE -> returned bit/type-exactly; ERROR -> SchemaResolutionError; EITHER (incompatible "
     "element types hidden by an empty array/map) -> that value or SchemaResolutionError. distinct_nontrivial = distinct "
     "(W, R, datum) triples with R != W."
@@ -235,10 +235,18 @@ def read_both(fa, W, R, payload, value_datum):
     from fastavro._read_common import SchemaResolutionError
 
     results = []
-    for how in ("schemaless", "container"):
+    for how in ("schemaless", "schemaless-parsed", "container", "container-parsed"):
         try:
             if how == "schemaless":
                 got = fa.schemaless_reader(io.BytesIO(payload), copy.deepcopy(W), copy.deepcopy(R))
+            elif how == "schemaless-parsed":
+                got = fa.schemaless_reader(io.BytesIO(payload), fa.parse_schema(copy.deepcopy(W)), fa.parse_schema(copy.deepcopy(R)))
+            elif how == "container-parsed":
+                fo = io.BytesIO()
+                fa.writer(fo, fa.parse_schema(copy.deepcopy(W)), [copy.deepcopy(value_datum)], sync_marker=b"R" * 16)
+                fo.seek(0)
+                got = list(fa.reader(fo, reader_schema=fa.parse_schema(copy.deepcopy(R))))
+                got = got[0] if len(got) == 1 else ("<records>", got)
             else:
                 fo = io.BytesIO()
                 fa.writer(fo, copy.deepcopy(W), [copy.deepcopy(value_datum)], sync_marker=b"R" * 16)
